@@ -43,6 +43,16 @@ def property_checks(inp):
     o = op.lensAgainst(U, wvl, d1, f)
     A(("power lensAgainst", abs(oc.power(o, wvl * abs(f) / (N * d1)) / P0 - 1), 1e-9))
     A(("linear lensAgainst", oc.relerr(op.lensAgainst(a * U + b * V, wvl, d1, f), a * o + b * op.lensAgainst(V, wvl, d1, f)), 1e-9))
+    # the field given with a real dtype (float64 / float32 / integer aperture mask) is the same field
+    Ur = numpy.round(U.real * 3)
+    for nm_, Ux in (("float64", Ur.astype(numpy.float64)), ("float32", Ur.astype(numpy.float32)), ("int64", Ur.astype(numpy.int64))):
+        for pn, f_, args_ in (("angularSpectrum", op.angularSpectrum, (wvl, d1, d2, z)), ("oneStepFresnel", op.oneStepFresnel, (wvl, d1, z)),
+                              ("twoStepFresnel", op.twoStepFresnel, (wvl, d1, d2, z)), ("lensAgainst", op.lensAgainst, (wvl, d1, f))):
+            A(("%s of a %s field = that of the same field as complex" % (pn, nm_), oc.relerr(f_(Ux, *args_), f_(Ur.astype(complex), *args_)), 1e-6 if nm_ == "float32" else 1e-12))
+    # a very short (but non-zero) distance is still a propagation: power conserved with the output spacing
+    zt = inp.get("ztiny", 1e-9)
+    o = op.angularSpectrum(U, wvl, d1, d2, zt)
+    A(("power angularSpectrum/tiny z/%s" % tagm, abs(oc.power(o, d2) / P0 - 1), 1e-9))
     # repeated call with the same geometry returns the same field (power must not drift)
     o1 = op.angularSpectrum(U, wvl, d1, d2, z); o2 = op.angularSpectrum(U, wvl, d1, d2, z)
     A(("angularSpectrum repeatable", oc.relerr(o2, o1), 0.0))
@@ -55,7 +65,8 @@ def gen_input(rng):
     return {"N": N, "wvl": wvl, "d1": d1, "mag": rng.choice([1.0, oc.gen_mag(rng), oc.gen_mag(rng), 2.0, 0.5]),
             "z": rng.choice([-1, 1]) * rng.loguniform(0.05, 50.0) * (N * d1 * d1 / wvl),
             "f": rng.choice([-1, 1]) * rng.loguniform(0.1, 30.0), "data_seed": rng.getrandbits(32),
-            "a": [rng.uniform(-2, 2), rng.uniform(-2, 2)], "b": [rng.uniform(-2, 2), rng.uniform(-2, 2)]}
+            "a": [rng.uniform(-2, 2), rng.uniform(-2, 2)], "b": [rng.uniform(-2, 2), rng.uniform(-2, 2)],
+            "ztiny": rng.choice([-1, 1]) * rng.loguniform(1e-12, 1e-8)}
 
 
 def falsify(ctx, deep=False):
